@@ -124,11 +124,25 @@ class Flow:
         return self._cap(r)
 
     # ------------------------------------------------------------ statements
+    split_assign_ifexp = False  # opt-in: `x = A if T else B` is walked as `if T: x = A` / `else: x = B`
+
     def stmt(self, s, states) -> Out:
         self.visited += 1
         m = getattr(self, '_s_' + type(s).__name__, None)
         if m is not None:
             return m(s, states)
+        if self.split_assign_ifexp and isinstance(s, ast.Assign) and isinstance(s.value, ast.IfExp) and len(s.targets) == 1 and isinstance(s.targets[0], ast.Name):
+            t, f = self.cond(s.value.test, set(states))
+            out = Out()
+            for val, sts in ((s.value.body, t), (s.value.orelse, f)):
+                if sts:
+                    o = self.stmt(ast.copy_location(ast.Assign(targets=s.targets, value=val, lineno=s.lineno), s), sts)
+                    out.normal |= o.normal
+                    out.exc |= o.exc
+                    out.ret |= o.ret
+                    out.brk |= o.brk
+                    out.cont |= o.cont
+            return out
         # simple statement: evaluate contained expressions in order, then hook
         cur = states
         for e in self._stmt_exprs(s):
